@@ -2,6 +2,7 @@ package main
 
 import (
 	"bytes"
+	"encoding/json"
 	"fmt"
 	"os"
 	"os/exec"
@@ -13,8 +14,8 @@ import (
 // ./zzgen in the v2 module) on the verification manifest and returns the
 // overlay entries that place the emitted files under <module>/zzvt/.
 func generateBindings(module, scratch string) (map[string]string, error) {
-	if module != "v2" {
-		return nil, fmt.Errorf("bindings are generated for the v2 module only")
+	if module == "root" {
+		return generateRootBindings(scratch)
 	}
 	_, mdir := modulePath(module)
 	out := filepath.Join(scratch, "gen-"+module)
@@ -58,6 +59,111 @@ func generateBindings(module, scratch string) (map[string]string, error) {
 	}
 	if len(extra) == 0 {
 		return nil, fmt.Errorf("generator produced no files")
+	}
+	return extra, nil
+}
+
+
+// generateRootBindings runs the ROOT module's current generator (go run .)
+// on the data types of the verification manifest, converted to its
+// parsed-spec format: same type descriptions, the fields of included records
+// flattened into the including record with IncludedFrom set (which is what
+// the root generator's Java front end emits). Resources are not converted.
+func generateRootBindings(scratch string) (map[string]string, error) {
+	mpath, mdir := modulePath("root")
+	raw, err := os.ReadFile(filepath.Join(verifDir(), "schemas", "vt.manifest.json"))
+	if err != nil {
+		return nil, err
+	}
+	var manifest struct {
+		InputDataTypes []map[string]map[string]interface{} `json:"inputDataTypes"`
+	}
+	if err := json.Unmarshal(raw, &manifest); err != nil {
+		return nil, err
+	}
+	records := map[string]map[string]interface{}{}
+	for _, t := range manifest.InputDataTypes {
+		if r, ok := t["record"]; ok {
+			records[r["name"].(string)] = r
+		}
+	}
+	var flat func(r map[string]interface{}) []interface{}
+	flat = func(r map[string]interface{}) []interface{} {
+		var out []interface{}
+		if incs, ok := r["includes"].([]interface{}); ok {
+			for _, inc := range incs {
+				id := inc.(map[string]interface{})
+				ir := records[id["name"].(string)]
+				if ir == nil {
+					continue
+				}
+				for _, f := range flat(ir) {
+					cp := map[string]interface{}{}
+					for k, v := range f.(map[string]interface{}) {
+						cp[k] = v
+					}
+					if _, has := cp["IncludedFrom"]; !has {
+						cp["IncludedFrom"] = map[string]interface{}{"name": ir["name"], "namespace": ir["namespace"]}
+					}
+					out = append(out, cp)
+				}
+			}
+		}
+		if fs, ok := r["fields"].([]interface{}); ok {
+			out = append(out, fs...)
+		}
+		return out
+	}
+	var types []interface{}
+	for _, t := range manifest.InputDataTypes {
+		if r, ok := t["record"]; ok {
+			cp := map[string]interface{}{}
+			for k, v := range r {
+				if k != "includes" {
+					cp[k] = v
+				}
+			}
+			cp["fields"] = flat(r)
+			types = append(types, map[string]interface{}{"record": cp})
+		} else {
+			types = append(types, t)
+		}
+	}
+	spec, _ := json.MarshalIndent(map[string]interface{}{"dataTypes": types, "Resources": []interface{}{}}, "", " ")
+	specPath := filepath.Join(scratch, "vt.rootspec.json")
+	if err := os.WriteFile(specPath, spec, 0o644); err != nil {
+		return nil, err
+	}
+	out := filepath.Join(scratch, "gen-root")
+	os.RemoveAll(out)
+	if err := os.MkdirAll(out, 0o755); err != nil {
+		return nil, err
+	}
+	cmd := exec.Command("go", "run", "-mod=mod", ".", "-p", mpath+"/zzvt", "-o", out, specPath)
+	cmd.Dir = mdir
+	cmd.Env = goEnv()
+	var buf bytes.Buffer
+	cmd.Stdout, cmd.Stderr = &buf, &buf
+	if err := cmd.Run(); err != nil {
+		return nil, fmt.Errorf("root generator failed: %v\n%s", err, trunc(buf.String(), 4000))
+	}
+	extra := map[string]string{}
+	err = filepath.Walk(out, func(p string, info os.FileInfo, err error) error {
+		if err != nil {
+			return err
+		}
+		if info.IsDir() || !strings.HasSuffix(p, ".go") || strings.HasSuffix(p, "_test.gr.go") {
+			return nil
+		}
+		rel, _ := filepath.Rel(out, p)
+		extra[filepath.Join("zzvt", rel)] = p
+		return nil
+	})
+	if err != nil {
+		return nil, err
+	}
+	if len(extra) == 0 {
+		return nil, fmt.Errorf("root generator produced no files")
 	}
 	return extra, nil
 }
